@@ -402,6 +402,10 @@ func Gen(profile string, seed uint64) (*Config, Plan) {
 			st := Step{AtMs: at, Kind: StepStopStart, Node: node, A: g.Range(0, 3*int64(cfg.ElectionMs))}
 			if g.Chance(0.4) {
 				st.Str = "leader"
+				if g.Chance(0.5) && at > 0 {
+					// Operations in flight when the leader is stopped gracefully.
+					plan = append(plan, Step{AtMs: at - 1, Kind: StepBurst, A: g.Range(2, 8)})
+				}
 			}
 			plan = append(plan, st)
 		case "burst":
